@@ -35,6 +35,10 @@ type Publisher struct {
 // destination. Which may be a file system, or somewhere else of your choosing.
 // If you only wish to generate files you should use a DirectoryFileWriter.
 func NewPublisher(doc *gedcom.Document, options *PublishShowOptions) *Publisher {
+	// The document may have been edited since it was published the last
+	// time.
+	forgetSurnames()
+
 	return &Publisher{
 		doc:          doc,
 		options:      options,
